@@ -11,6 +11,8 @@ func init() {
 }
 
 func c02(c *q.Ctx) {
+	inBlockDistinct(c)
+	zeroOutputTest(c)
 	const utxo = "bcs/ledger/xledger/state/utxo::"
 	const st = "bcs/ledger/xledger/state::"
 	inputChecks(c)
@@ -124,5 +126,20 @@ func inputChecks(c *q.Ctx) {
 		c.Gate(f, "UtxoItem.Loads", q.ToSuccess(), q.Opt{K1Only: true})
 		// the amount that is compared and summed comes from the cache entry or the stored row of this very input
 		c.ArgIs(f, "Database.Get", 0, "utxo.GenUtxoKey(p1.TxInputs[].FromAddr,p1.TxInputs[].RefTxid,p1.TxInputs[].RefOffset)", 1, "the stored row that is read is the cited output's")
+	}
+}
+
+// zeroOutputTest (C02, C01): the only outputs that produce no unspent output are those whose amount IS zero - the
+// decision compares the whole big integer with zero, in apply and in undo alike (a test on a truncation of the amount
+// lets CheckInputEqualOutput count a value for which no output is ever created).
+func zeroOutputTest(c *q.Ctx) {
+	const st = "bcs/ledger/xledger/state::"
+	zero := "(0 == big.(*Int).Cmp(big.NewInt(0){SetBytes(p1.TxOutputs[].Amount)},big.NewInt(0)))"
+	for _, name := range []string{"doTxInternal", "undoTxInternal"} {
+		f := c.Fn(st + "(*State)." + name)
+		if f == nil {
+			continue
+		}
+		c.CondCount(f, zero, 1, "an output is skipped exactly when its amount is zero")
 	}
 }
